@@ -1644,6 +1644,9 @@ class ForkCtl:
         os.write(self.tok_w, b'x')
 
 
+_PAR = {}      # engine / run / on_path handed to forked pool workers
+
+
 def _leaf(engine, ctx, run, on_path, stats):
     """execute one path on ctx; returns (leaf dict | None, alternatives)"""
     engine.ctx = ctx
